@@ -5,12 +5,16 @@
     Go's own rules ([reads_as], the model of strconv.Unquote / the scanner), as exactly that document, and that a
     template with such a body is one WriteString of that literal followed by the error check and the epilogue.
     (The whitespace-removal pass that follows is the identity on text without markers: C14.)
-    Dynamic content (interpolation, scripts, control flow, attributes from expressions, @render / @children) is not
-    covered by a theorem: there the rendered bytes are compared with the generator's denotation on generated
-    templates and environments by the C01 check.  Attribute names are covered for plain characters (F06).
+    For the dynamic fragment (Proofs/SegProofs.v: interpolation, scripts, control flow, attributes from expressions, a
+    dynamic class attribute, object references, @attributes, @render / @children, filters, whitespace marks; any size
+    and nesting) the generated body is proved to be a run of the grammar of generated code [denotes] standing for the
+    segment list of the template; what Go does with such a run is the trusted step, and the rendered bytes are
+    compared with the generator's denotation on generated templates and environments by the C01 check.
+    Not in the proved fragment: a class attribute with a conditional value (`class?`), the :preserve filter
+    and preserved text.  Attribute names are covered for plain characters (F06).
     OBLIGATIONS: C01_static_tree_reads_as_its_html C01_static_body_reads_as_its_html C01_static_template_code
                  C01_static_template_literal_value C01_static_document_survives_whitespace_pass
-                 C01_template_with_interpolation_code C01_segments_of_static_tree C01_nonvacuous C01_nonvacuous_dynamic C01_nonvacuous_helpers C01_nonvacuous_filters C01_nonvacuous_braces *)
+                 C01_template_with_interpolation_code C01_segments_of_static_tree C01_nonvacuous C01_nonvacuous_dynamic C01_nonvacuous_helpers C01_nonvacuous_class_attribute C01_nonvacuous_filters C01_nonvacuous_braces *)
 From GV Require Import Compiler.Compile Base.Regex Proofs.Utf8Proofs Proofs.QuoteProofs Proofs.EmitProofs Proofs.StaticProofs Proofs.StaticNukeProofs Proofs.DynamicProofs Proofs.SegProofs.
 From Coq Require Import Lia.
 Open Scope N_scope.
@@ -64,6 +68,8 @@ Print Assumptions C01_static_document_survives_whitespace_pass.
 (** templates with interpolation, `=` scripts, unescaped `!=` / `!` lines, dynamic and conditional attributes, object
     references `[obj]` (goht.ObjectID / BuildClassList), `@attributes` (goht.BuildAttributeList), the whitespace marks
     `>` `<`, comment blocks, the :javascript / :css / :plain / :escaped filters, and
+    a class attribute with a dynamic or quoted value (`{class: #{expr}}`: the value joins the arguments of BuildClassList; `{class: "x y"}`: its names join the
+    class shorthands in the literal; in both cases no attribute of that name is written), and
     `-` lines (Go statements; blocks written without braces: if / else if / else chains, for, switch with its case lines;
     blocks written with their own braces: `- if x {` ... `- } else {` ... `- }`):
     the generated body is a run of literal chunks, dynamic blocks and Go statements `stmt { ... }`, [denotes],
@@ -215,6 +221,35 @@ Proof.
   all: intros o0 Ho; injection Ho as <-; reflexivity.
 Qed.
 Print Assumptions C01_nonvacuous_helpers.
+
+(** a class attribute: a dynamic value is the last argument of goht.BuildClassList (after the class shorthands and
+    the object reference), a quoted one adds its names to the literal; no attribute named class is written *)
+Definition ex6_src : bytes :=
+  lit "@goht T(u User, cls string) {" ++ [10; 9] ++ lit "%p.c[u]{class: #{cls}, title: ""t""} hi" ++ [10; 9] ++
+  lit "%i.d{class: #{cls}}" ++ [10; 9] ++ lit "%b.e{class: ""x y""}" ++ [10] ++ lit "}" ++ [10].
+Definition ex6_items : list node :=
+  Eval vm_compute in match compile_parse ex6_src with ODone (Node _ items) None => items | _ => [] end.
+
+Example C01_nonvacuous_class_attribute :
+  match ex6_items with
+  | Node (KGoht o) body :: _ =>
+      Forall dyn_node body /\ kids_ok body /\
+      match segs_list false body with
+      | [SLit t; SObjId e; SClassList args; SLit a1; SLit a2; SLit _; _; _; _; SLit t2; SClassList args2; SLit _; _; _; SLit t3; SLit c3; _; _; _] =>
+          t = lit "<p" /\ e = lit "u" /\ args = lit """c"", goht.ObjectClass(u), cls" /\ a1 = lit " title=""" /\ a2 = lit "t""" /\
+          t2 = lit "<i" /\ args2 = lit """d"", cls" /\ t3 = lit "<b" /\ c3 = lit " class=""e x y"""
+      | _ => False
+      end
+  | _ => False
+  end.
+Proof.
+  cbv [ex6_items]. split; [|split; [vm_compute; repeat split; try reflexivity; intros; try assumption; discriminate|vm_compute; repeat split; reflexivity]].
+  repeat dn1. all: try lia; try discriminate; try reflexivity.
+  all: try (intros o0 Ho; injection Ho as <-; reflexivity).
+  all: try (intros c0 Hc0; injection Hc0 as <-; first [left; reflexivity | right; split; [reflexivity|eexists; split; [vm_compute; reflexivity|unfold bytes_ok; repeat constructor]]]).
+  all: right; left; repeat split; unfold bytes_ok; repeat constructor.
+Qed.
+Print Assumptions C01_nonvacuous_class_attribute.
 
 (** filters, a comment block and whitespace marks *)
 Definition ex4_src : bytes :=
